@@ -1448,6 +1448,9 @@ namespace link_layer {
     template < class Server, template < std::size_t, std::size_t, class > class ScheduledRadio, typename ... Options >
     void link_layer< Server, ScheduledRadio, Options... >::force_disconnect()
     {
+        // make sure, that there is room in the queue for the closed / attempt timeout event
+        this->template handle_connection_events< link_layer< Server, ScheduledRadio, Options... > >();
+
         this->reset_encryption();
         this->reset_phy( *this );
 
@@ -1503,6 +1506,10 @@ namespace link_layer {
                     result = handle_ll_control_data( pdu, output );
                     this->free_ll_l2cap_received();
                     pdu = this->next_ll_l2cap_received();
+
+                    // several control PDUs can be received within one connection event, every one of them can queue
+                    // a connection event; deliver them now, to not overflow the queue of connection events.
+                    this->template handle_connection_events< link_layer< Server, ScheduledRadio, Options... > >();
                 }
                 else
                 {
